@@ -92,8 +92,11 @@ Mark(t) ==
 
 \* <-ch.Done() returned; deferred: close callback, rc.remove, s.reverse.remove (ch.Close is a no-op by now).
 \* Done() can only fire once the handler waits for it or earlier; the registration steps are not interrupted
+\* (found by conformance checking: Done() is the channel CONTEXT's Done(); when the tunnel ends because its
+\* stream's context ends - Stop, cancellation, failure - it fires before the closer has unregistered
+\* anything, so the handler's clean-up can overtake the closer's)
 CbClose(t) ==
-  /\ hpc[t] = "open" /\ finished[t] /\ hpc' = [hpc EXCEPT ![t] = "c1"]
+  /\ hpc[t] = "open" /\ (finished[t] \/ cpc[t] # "none") /\ hpc' = [hpc EXCEPT ![t] = "c1"]
   /\ cbs' = [cbs EXCEPT ![t] = Append(@, "close")]
   /\ UNCHANGED <<cpc, finished, glist, klist, gidx, kidx, gavail, kavail, picks>>
 
